@@ -13,6 +13,13 @@ def main():
     ap.add_argument("--replay", default=None)
     a = ap.parse_args()
     seed = int(os.environ.get("VERIF_SEED") or 0)
+    import shutil
+    import tempfile
+    base = "/dev/shm" if os.path.isdir("/dev/shm") and os.access("/dev/shm", os.W_OK) else None
+    scratch = tempfile.mkdtemp(prefix="verif-run-%s-" % a.pid.lower(), dir=base)
+    os.environ["VERIF_SCRATCH"] = scratch          # every World root / TLC scratch of this run lives below it
+    import atexit
+    atexit.register(lambda: shutil.rmtree(scratch, ignore_errors=True))
     from harness import core, tlc
     try:
         mod = importlib.import_module("harness.%s" % a.pid.lower())
